@@ -90,6 +90,17 @@ func (c *Ctx) model() *textModel {
 					if bi, ok := cl.Call.Value.(*ssa.Builtin); ok && bi.Name() == "len" {
 						if _, f, ok := fieldLoad(cl.Call.Args[0]); ok {
 							m.Data = f
+						} else {
+							// len(v) where v is the very value the same function stores into a field of the same object
+							for _, b2 := range fn.Blocks {
+								for _, in2 := range b2.Instrs {
+									if st2, ok := in2.(*ssa.Store); ok && st2.Val == cl.Call.Args[0] {
+										if fa2, ok := st2.Addr.(*ssa.FieldAddr); ok && fa2.X == fa.X && fieldVar(fa2) != nil {
+											m.Data = fieldVar(fa2).Name()
+										}
+									}
+								}
+							}
 						}
 					}
 				}
